@@ -18,7 +18,15 @@ checks = []
 na = []
 for pid in ["C%02d" % i for i in range(1, 21)]:
     d = md.PROPS[pid]
+    # the list of rules actually evaluated comes from the last evidence file, so the claim cannot drift from the code
+    evp = os.path.join(root, "evidence", pid + ".json")
+    rules_txt = ""
+    if os.path.exists(evp):
+        ev = json.load(open(evp))
+        rules_txt = " Rules evaluated on every run (id:kind): " + ", ".join("%s:%s" % (r["id"], r["kind"]) for r in ev["coverage"]["rules"]) + \
+                    ". Rule statements: DESIGN.md section 10."
     if d.get("claimed"):
+        d = dict(d, text=d["text"] + rules_txt)
         checks.append({
             "property_id": pid,
             "quick_cmd": "./check %s" % pid,
